@@ -314,7 +314,18 @@ _R4 = {
     "C19": " Round 4: after every invocation one cached entry is requested while a one-shot race renames it away right after the server's is_file answered true (what a build restoring that entry does): the answer must be the exact bytes or 404.",
     "C20": " Round 4: monitors on every explored schedule — a rule whose command ran and whose targets are in place has its status lines; the number of reported errors equals the number of failing rules and missing leaves.",
 }
+_R5 = {
+    "C01": " Round 5: a fifth of the histories run on a file system whose reads return 3 bytes at a time.",
+    "C03": " Round 5: a fifth of the scenarios on a file system whose reads return 3 bytes at a time; every corpus case is explored a second time with one-byte reads (corpus/sched/edit-behind-the-first-short-read.case).",
+    "C04": " Round 5: monitor — after a build the file-state table has no entry for a target of a rule whose command failed in that build.",
+    "C08": " Round 5: suite crash_coarse (see C11) with a content monitor on the builds that continue from each crash state.",
+    "C09": " Round 5: suite dropped also writes the rules file with one rule repeated and builds / cleans a goal: nothing in the workspace may change.",
+    "C10": " Round 5: suite mixed (single targets deleted or tampered, then cleans) with the generic first-half monitor.",
+    "C13": " Round 5: c13_identity also generates rules whose neighbouring strings are 55..300 bytes long and moves one character across the boundary between two of them (300 quick / 3000 thorough pairs).",
+}
 for _k, _v in _R3.items():
+    PROPS[_k]["rule"] += _v
+for _k, _v in _R5.items():
     PROPS[_k]["rule"] += _v
 for _k, _v in _R4.items():
     PROPS[_k]["rule"] += _v
